@@ -30,8 +30,31 @@ _ANY = _Any()
 _NAN = float("nan")      # a value that does not equal itself; ONE object, stored as attribute and used as search value
 
 
+class _Version(object):
+    """a value whose __eq__ assumes its operand is of its own kind (`other.major`): comparing it with anything else raises
+    AttributeError - which the by-attr searches promise never to let escape (such a node simply does not match)"""
+
+    def __init__(self, major):
+        self.major = major
+
+    def __eq__(self, other):
+        return self.major == other.major
+
+    def __ne__(self, other):
+        return self.major != other.major
+
+    def __hash__(self):
+        return hash(self.major)
+
+    def __repr__(self):
+        return "<VER>"
+
+
+_VER = _Version(3)
+
+
 def _val(v):
-    return _ANY if v == "<ANY>" else (_NAN if v == "<NAN>" else v)
+    return _ANY if v == "<ANY>" else (_NAN if v == "<NAN>" else (_VER if v == "<VER>" else v))
 
 def canon_count_error(e):
     msg = str(e)
